@@ -83,6 +83,11 @@ var reqHeaderPalette = [][]hdrKV{
 	{{"Cache-Control", "no-cache"}, {"Pragma", "no-cache"}},
 	{{"Content-Type", "application/json"}},
 	{{"Range", "bytes=0-99"}},
+	// set by a proxy in front of Helios: end-to-end as far as Helios is concerned
+	{{"Forwarded", "for=203.0.113.5;proto=https;host=shop.example"}},
+	{{"X-Forwarded-Proto", "https"}, {"X-Forwarded-Host", "shop.example"}},
+	{{"Via", "1.1 edge"}},
+	{{"Referer", "https://shop.example/a?b=c"}, {"Origin", "https://shop.example"}},
 }
 
 var respHeaderPalette = [][]hdrKV{
@@ -105,7 +110,7 @@ func genExchange(x *X, env *sysEnv, cl *sClient, streaming bool) *exchange {
 	c := x.C
 	ex := env.newExchange(cl)
 	ex.method = []string{"GET", "GET", "POST", "PUT", "DELETE", "HEAD", "OPTIONS", "PATCH"}[c.Intn(8, "method")]
-	ex.target = []string{"/", "/a/b/c", "/path%20with%20space", "/x%2Fy", "/q?x=1&y=2&y=3", "/caf%C3%A9?%C3%A9=1", "/a//b", "/very/" + strings.Repeat("long/", 20), "/?", "/semi;colon=1?a=b;c"}[c.Intn(10, "target")]
+	ex.target = []string{"/", "/a/b/c", "/path%20with%20space", "/x%2Fy", "/q?x=1&y=2&y=3", "/caf%C3%A9?%C3%A9=1", "/a//b", "/very/" + strings.Repeat("long/", 20), "/?", "/semi;colon=1?a=b;c", "/pct?x=100%&y=%zz", "/order?b=2&a=1&b=1", "/sp?q=a+b%20c&empty=&novalue"}[c.Intn(13, "target")]
 	nh := c.Intn(4, "nreqhdr")
 	used := map[string]bool{}
 	for i := 0; i < nh; i++ {
